@@ -91,6 +91,9 @@ async fn run_script(steps: Vec<String>) -> (String, Option<String>) {
     let mut faulted = false;
     let mut abandoned: Vec<i64> = vec![];
     let mut raw_bad: Option<String> = None;
+    let mut partial_sent = false;
+    let mut kinds: Vec<String> = vec![];
+    let mut sent_at_start: Vec<usize> = vec![];
     for tok in &steps {
         let f: Vec<&str> = tok.split(':').collect();
         match f[0] {
@@ -100,6 +103,8 @@ async fn run_script(steps: Vec<String>) -> (String, Option<String>) {
                 views.push(view.clone());
                 let tmo: Option<u64> = if f[2] == "-" { None } else { Some(f[2].parse().unwrap()) };
                 let kind = f[1].to_string();
+                kinds.push(kind.clone());
+                sent_at_start.push(sent_by_id.get(&(views.len() as i64)).map(|x| x.len()).unwrap_or(0));
                 match &main {
                     None => { view.lock().unwrap().status = "nohandle".into(); cmds.push(None); tasks.push(tokio::spawn(async {})); op_mid.push(-1); }
                     Some(h) => {
@@ -161,6 +166,7 @@ async fn run_script(steps: Vec<String>) -> (String, Option<String>) {
                 let (mid, tokn): (i64, u64) = (f[1].parse().unwrap(), f[3].parse().unwrap());
                 let bytes = response_bytes(mid, f[2], tokn);
                 let n = if f[0] == "B" { bytes.len() / 2 } else { bytes.len() };
+                if f[0] == "B" { partial_sent = true; }
                 if server_open {
                     if f[0] == "R" { sent_by_id.entry(mid).or_default().push(tokn); }
                     // deliver in two writes to exercise the framing path as well
@@ -229,6 +235,11 @@ async fn run_script(steps: Vec<String>) -> (String, Option<String>) {
             let mut it = sent.iter();
             if !v.got.iter().all(|g| it.any(|s| s == g)) { oracle.get_or_insert(format!("operation {} (message id {}) was handed items {:?} but the server sent {:?} under that id", i, op_mid[i], v.got, sent)); }
             if v.status.starts_with("ok:") && v.status != "ok:null" { let t: u64 = v.status[3..].parse().unwrap_or(u64::MAX); if !sent.contains(&t) { oracle.get_or_insert(format!("operation {} (message id {}) returned result token {} which the server never sent under that id", i, op_mid[i], t)); } }
+            }
+            // C01: "does not disturb any other operation": on a healthy connection, once the response of a single-result operation has
+            // been sent in full (whatever else was sent before it, in whichever read), the operation cannot still be waiting
+            if drv == "running" && !faulted && !partial_sent && v.status == "pending" && kinds[i] == "single" && op_mid[i] > 0 && sent_by_id.get(&op_mid[i]).map(|x| x.len()).unwrap_or(0) > sent_at_start[i] {
+                oracle.get_or_insert(format!("operation {} (message id {}) is still waiting although its response was sent in full", i, op_mid[i]));
             }
             // C12 / C13: on a healthy connection an operation fails with a lost reply channel only if it was abandoned
             if drv == "running" && !faulted && (v.status == "err:resultrecv" || v.status == "starterr:resultrecv") && !abandoned.contains(&op_mid[i]) && (op_mid[i] > 0 || table_reset) && !(table_reset && abandoned.iter().any(|_| true)) {
